@@ -444,6 +444,46 @@ def schedule_rules(R, ts):
                             okb = True
             R.check(okb, "SCHEDULE", "future:fallback-stops-at-strictly-later", "%s()" % name, "sorted insertion stops at the first task strictly later (equal times stay FIFO)",
                     "the fallback sorted insertion does not stop at the first strictly later task")
+            # the scan variable (the position handed to insert_before) walks the list node by node from its first node:
+            # it is set from begin / front of the timed list and from aws_linked_list_next of itself; a jump to the end
+            # is sound only when decided by the *last* task's time (the list is sorted: nothing before it is later)
+            if fb:
+                pos = RU.uncast(f, RU.arg(f, fb[0].node, 0))
+                if pos is not None and pos["k"] == "var":
+                    bad_defs = []
+                    for b in f.blocks.values():
+                        for el in b.elems:
+                            for x in f.walk(el):
+                                rhs = None
+                                if x["k"] == "decl":
+                                    rhs = next((v.get("init") for v in x["vars"] if v["n"] == pos["n"]), None)
+                                elif x["k"] == "bin" and x["op"] == "=" and (f.d(x["a"][0]) or {}).get("k") == "var" and f.d(x["a"][0])["n"] == pos["n"]:
+                                    rhs = x["a"][1]
+                                if rhs is None:
+                                    continue
+                                r_ = RU.uncast(f, rhs)
+                                while r_ is not None and r_["k"] == "cast":
+                                    r_ = RU.uncast(f, r_["a"][0])
+                                c_ = (r_ or {}).get("callee") if r_ is not None and r_["k"] == "call" else None
+                                if c_ in RU.LIST_FRONT and argstr(f, r_, 0) == "scheduler->timed_list":
+                                    continue
+                                if c_ == "aws_linked_list_next" and f.show(RU.uncast(f, RU.arg(f, r_, 0))) == pos["n"]:
+                                    continue
+                                if c_ == "aws_linked_list_end" and argstr(f, r_, 0) == "scheduler->timed_list":
+                                    ev_ = type("E", (), {"blk": b.id, "idx": 0, "seq": 0})()
+                                    by_last = False
+                                    for cc, pp, bb in RU.guards(f, ev_, dom):
+                                        for y in f.walk(f.d(cc), follow_refs=True):
+                                            o_ = RU.origin(f, y) if y["k"] == "var" else None
+                                            if o_ is not None and o_["k"] == "call" and o_.get("callee") in RU.LIST_BACK:
+                                                by_last = True
+                                            if y["k"] == "call" and y.get("callee") in RU.LIST_BACK:
+                                                by_last = True
+                                    if by_last:
+                                        continue
+                                bad_defs.append(f.show(r_)[:60] if r_ is not None else "?")
+                    R.check(not bad_defs, "SCHEDULE", "future:fallback-scans-from-the-front", "%s()" % name, "the insertion position walks the timed list node by node from its first node",
+                            "the insertion position of the fallback is also set from %s: part of the sorted list is skipped without looking at it, the new task lands behind later ones and runs out of time order" % bad_defs)
 
 
 def cancel_rules(R, ts):
